@@ -496,7 +496,7 @@ def main():
 
     # 5b. the limit of a location that lives on the default control (edited in place, as /api/sys/loccontrol does) is the one in
     # force when the script runs, also when the location was used before the limit was changed; one process per case (globals)
-    dcases = [{"kind": "c14.defaultctl", "first_ns": a * MS, "then_ns": b * MS, "code": G.render({"t": "loop", "variant": v}), "wait_ms": b + 2500, "timeout_ms": 20000}
+    dcases = [{"kind": "c14.defaultctl", "first_ns": a * MS, "then_ns": b * MS, "code": G.render({"t": "loop", "variant": (0, 1, 4, 5)[v % 4]}), "wait_ms": b + 2500, "timeout_ms": 20000}      # (variants 2, 3 need Env.tick)
               for v, (a, b) in enumerate([(8000, 150), (100, 900)] if not thorough else [(8000, 150), (100, 900), (-1, 200), (60000, 100), (50, 1500), (3000, 300)])]
     dres = run_cases(drv, dcases, jobs=len(dcases), per_chunk=1)
     dmod = run_cases(mdl, [{"kind": "c14.choose", "tc": {"on": True, "hasLoc": True, "control": c["then_ns"], "sysDefault": STOCK_DEFAULT_MS * MS}} for c in dcases])
